@@ -66,7 +66,8 @@ def generate(run_seed, prop, tier="quick"):
     firsts = [o for o in ops if o["op"] == "cs" and not o.get("abort_at")]
     if firsts:
         ops.append(dict(rng.choice(firsts)))
-    scenario = {"family": "sampler", "prop": prop, "run_seed": run_seed, "configs": configs, "mode": mode,
+    ctor = rng.choice(["from_string", "from_string", "shared_dict"])
+    scenario = {"family": "sampler", "prop": prop, "run_seed": run_seed, "configs": configs, "mode": mode, "ctor": ctor,
                 "entropy": entropy, "ops": ops, "faults_enabled": sorted(k for k, v in faults.items() if v)}
     if prop == "C09":
         scenario["resolver_items"] = [gen_mol.build_item(rng, kind="atomistic", weights=rng.random() < 0.5) for _ in range(rng.choice([1, 2]))]
@@ -437,6 +438,7 @@ def run_history(scenario, only=None):
     else:
         stats["probe:add_fragment_missing"] = 1
     parsed = {}
+    shared_dicts = {}
     last_sampler = {}
 
     def templates_for(idx):
@@ -454,6 +456,11 @@ def run_history(scenario, only=None):
             kwargs["terminal_bonds"] = list(cfg["terminal_bonds"])
         if cfg["fragment_masses"]:
             kwargs["fragment_masses"] = dict(cfg["fragment_masses"])
+        if sc.get("ctor") == "shared_dict":
+            # one fragment dict parsed once per history and handed to every sampler built from it
+            if idx not in shared_dicts:
+                shared_dicts[idx] = read_fragments(cfg["string"], all_atom=cfg["all_atom"])
+            return MoleculeSampler(shared_dicts[idx], **kwargs)
         return MoleculeSampler.from_fragment_string(cfg["string"], **kwargs)
 
     def do_sample(idx, sampler, event, judge_masses=True):
@@ -679,6 +686,7 @@ def execute(scenario):
     stats["rich_trajectories"] = sorted({ev["traj"] for ev in events if ev.get("rich")})
     stats["growth_steps"] = sum(ev.get("steps", 0) for ev in events)
     stats["mode:" + sc["mode"]] = 1
+    stats["ctor:" + sc.get("ctor", "from_string")] = 1
     result["digest"] = sha(jdump([[e.get(k) for k in ("seq", "op", "out", "dig", "steps", "traj")] for e in events]))
     result["nontrivial"] = bool(stats["rich_trajectories"])
     result["sample"] = {"mode": sc["mode"], "entropy": sc["entropy"],
@@ -724,3 +732,70 @@ def shrink_candidates(scenario):
         new = copy.deepcopy(sc)
         new["resolver_items"] = []
         yield new
+
+
+# ---------------------------------------------------------------------------
+# exhaustive abort-point enumeration (C17): an aborted construct-and-sample over a shared
+# fragment dict must leave nothing behind that changes the next seeded construct-and-sample
+# ---------------------------------------------------------------------------
+
+def enum_item(item_seed):
+    rng = rng_for("sampler-abort-enum", item_seed)
+    cfg = None
+    for _ in range(50):
+        cfg = gen_sampler.gen_config(rng, all_atom=rng.random() < 0.7, tier="quick")
+        if not cfg["wild"] and 0 < cfg["target"]:
+            break
+    # keep the enumerated op small: a handful of growth steps
+    masses = cfg["fragment_masses"] or {t["name"]: t.get("mass", 50.0) for t in cfg["templates"]}
+    cfg["target"] = 3.5 * (sum(masses.values()) / len(masses))
+    return {"cfg": cfg, "seed": rng.randrange(10 ** 9), "ctor": rng.choice(["shared_dict", "from_string"])}
+
+
+def enum_scenario(item, k, which="cs"):
+    ops = [{"op": "cs", "cfg": 0, "seed": item["seed"], "abort_at": k}, {"op": "cs", "cfg": 0, "seed": item["seed"]}]
+    return {"family": "sampler", "prop": "C17", "run_seed": H("sampler-enum", item["cfg"]["string"], item["seed"], k),
+            "configs": [item["cfg"]], "mode": "seed", "ctor": item["ctor"], "entropy": {"key": 0, "steer": 0.0, "edge": 0.0},
+            "ops": ops, "faults_enabled": ["abort"], "enum": {"k": k, "which": which}}
+
+
+def _probe(item):
+    from .seams import AbortInjector
+    sc = enum_scenario(item, 0)
+    sc["ops"] = [{"op": "cs", "cfg": 0, "seed": item["seed"]}]
+    with AbortInjector(0) as inj:
+        out = run_history(sc)
+    ev = out["events"][0]
+    return {"cs": inj.count, "ref": [ev.get("out"), ev.get("dig")], "steps": ev.get("steps")}
+
+
+def enum_probe(item):
+    return _probe(item)
+
+
+def _enum_point(item, k, ref):
+    sc = enum_scenario(item, k)
+    out = run_history(sc)
+    first, second = out["events"]
+    violations = [v for v in out["violations"] if v.get("event") == 1]
+    if [second.get("out"), second.get("dig")] != list(ref):
+        violations.append({"oracle": "C17.seed", "event": 1,
+                           "detail": "after a construct-and-sample aborted at line %d (%s) the same seed gave %s/%s, pristine reference %s/%s"
+                                     % (k, first.get("out"), second.get("out"), second.get("dig"), ref[0], ref[1])})
+    fired = bool(first.get("fired"))
+    return {"fired": fired, "where": first["out"].split("@")[1] if fired and "@" in first.get("out", "") else None, "violations": violations}
+
+
+def enum_points(item, which, ks, ref):
+    from .procs import fork_call
+    failures = []
+    fired = 0
+    landing = {}
+    for k in ks:
+        out = fork_call(_enum_point, (item, k, ref), timeout=120)
+        if out["fired"]:
+            fired += 1
+            landing[out["where"]] = landing.get(out["where"], 0) + 1
+        if out["violations"]:
+            failures.append({"k": k, "violations": out["violations"]})
+    return {"points": len(ks), "fired": fired, "failures": failures, "landing": landing}
